@@ -1,2 +1,233 @@
 (* Props/C08.v — under construction *)
 From SV Require Import Base.Prelude.
+(* Property C08: structural, elementwise and arithmetic operations commute with
+   densification.  `sem x cs` is the dense entry of x at the coordinate list cs
+   (one (charge, offset) pair per axis, zero where no sector is stored);
+   `vsem v (c, o)` the same for block vectors.  Statements only; the proofs and
+   the definitions vsem / vinb / mask_keep / removes / selected / squeezable /
+   unit_index / tables_nodup / RingLaws live in Proofs/StructProofs.v.  Every
+   theorem holds for every rank, every index table, every symmetry with the
+   group laws and every ring with the listed laws (ZRing and GRing have them). *)
+From SV Require Import Base.Sym Base.Tensor Model.Sectors Model.Array Model.Arith Model.Wf
+  Proofs.StructProofs.
+From Coq Require Import Permutation.
+
+Theorem C08_transpose_sem :
+  forall (G : Symmetry), GroupLaws G -> forall (R : Ring) (x : aarray G R) (perm : list nat) (cs : list (coord G)),
+  wf_array G R x = true ->
+  Permutation perm (seq 0 (ndim G R x)) ->
+  coords_ok G (indices G R x) cs = true ->
+  sem G R (a_transpose G R x perm) (permuted (ident G, 0%nat) cs perm) = sem G R x cs /\
+  indices G R (a_transpose G R x perm) = permuted (dflt_index G) (indices G R x) perm /\
+  charge G R (a_transpose G R x perm) = charge G R x /\
+  coords_ok G (indices G R (a_transpose G R x perm)) (permuted (ident G, 0%nat) cs perm) = true.
+Proof. exact transpose_sem. Qed.
+
+Theorem C08_conj_sem :
+  forall (G : Symmetry) (R : Ring), rconj R (r0 R) = r0 R ->
+  forall (x : aarray G R) (cs : list (coord G)),
+  sem G R (a_conj G R x) cs = rconj R (sem G R x cs) /\
+  indices G R (a_conj G R x) = map (iconj G) (indices G R x) /\
+  charge G R (a_conj G R x) = sign G (charge G R x) true /\
+  coords_ok G (indices G R (a_conj G R x)) cs = coords_ok G (indices G R x) cs.
+Proof. exact conj_sem. Qed.
+
+Theorem C08_iconj_spec :
+  forall (G : Symmetry) (ix : index G),
+  idual G (iconj G ix) = negb (idual G ix) /\ chargemap G (iconj G ix) = chargemap G ix /\
+  iconj G (iconj G ix) = ix.
+Proof. exact iconj_spec. Qed.
+
+Theorem C08_dagger_sem :
+  forall (G : Symmetry), GroupLaws G -> forall (R : Ring), rconj R (r0 R) = r0 R ->
+  forall (x : aarray G R) (cs : list (coord G)),
+  wf_array G R x = true -> coords_ok G (indices G R x) cs = true ->
+  sem G R (a_dagger G R x) (rev cs) = rconj R (sem G R x cs) /\
+  indices G R (a_dagger G R x) = rev (map (iconj G) (indices G R x)) /\
+  charge G R (a_dagger G R x) = sign G (charge G R x) true.
+Proof. exact dagger_sem. Qed.
+
+Theorem C08_scale_sem :
+  forall (G : Symmetry) (R : Ring), (forall a, rmul R (r0 R) a = r0 R) ->
+  forall (x : aarray G R) (s : RT R) (cs : list (coord G)),
+  sem G R (a_scale G R x s) cs = rmul R (sem G R x cs) s.
+Proof. exact scale_sem. Qed.
+
+Theorem C08_neg_sem :
+  forall (G : Symmetry) (R : Ring), rneg R (r0 R) = r0 R ->
+  forall (x : aarray G R) (cs : list (coord G)), sem G R (a_neg G R x) cs = rneg R (sem G R x cs).
+Proof. exact neg_sem. Qed.
+
+(* x and y may store different sector sets; only x needs to be well formed, because
+   the model's blockwise addition tabulates over the left block's shape. *)
+Theorem C08_add_sem :
+  forall (G : Symmetry), GroupLaws G -> forall (R : Ring),
+  (forall a, radd R (r0 R) a = a) -> (forall a, radd R a (r0 R) = a) ->
+  forall (x y : aarray G R) (cs : list (coord G)),
+  wf_array G R x = true -> coords_ok G (indices G R x) cs = true ->
+  sem G R (a_add G R x y) cs = radd R (sem G R x cs) (sem G R y cs).
+Proof. exact add_sem. Qed.
+
+Theorem C08_sub_sem :
+  forall (G : Symmetry), GroupLaws G -> forall (R : Ring),
+  (forall a, radd R (r0 R) a = a) -> rneg R (r0 R) = r0 R ->
+  forall (x y z : aarray G R) (cs : list (coord G)),
+  wf_array G R x = true -> coords_ok G (indices G R x) cs = true ->
+  a_sub G R x y = Some z ->
+  sem G R z cs = radd R (sem G R x cs) (rneg R (sem G R y cs)).
+Proof. exact sub_sem. Qed.
+
+Theorem C08_sub_none :
+  forall (G : Symmetry), GroupLaws G -> forall (R : Ring) (x y : aarray G R),
+  a_sub G R x y = None <-> ~ (forall s, In s (sectors G R x) <-> In s (sectors G R y)).
+Proof. exact sub_none. Qed.
+
+Theorem C08_mul_sem :
+  forall (G : Symmetry), GroupLaws G -> forall (R : Ring),
+  (forall a, rmul R (r0 R) a = r0 R) -> (forall a, rmul R a (r0 R) = r0 R) ->
+  forall (x y : aarray G R) (cs : list (coord G)),
+  wf_array G R x = true -> coords_ok G (indices G R x) cs = true ->
+  sem G R (a_mul G R x y) cs = rmul R (sem G R x cs) (sem G R y cs).
+Proof. exact mul_sem. Qed.
+
+Theorem C08_multiply_diagonal_sem :
+  forall (G : Symmetry), GroupLaws G -> forall (R : Ring),
+  (forall a, rmul R (r0 R) a = r0 R) -> (forall a, rmul R a (r0 R) = r0 R) ->
+  forall (x : aarray G R) (v : bvec G R) (axis : nat) (cs : list (coord G)),
+  wf_array G R x = true -> coords_ok G (indices G R x) cs = true ->
+  sem G R (a_multiply_diagonal G R x v axis) cs =
+  rmul R (sem G R x cs) (vsem G R v (nth axis cs (ident G, 0%nat))).
+Proof. exact multiply_diagonal_sem. Qed.
+
+Theorem C08_expand_dims_sem :
+  forall (G : Symmetry), GroupLaws G -> forall (R : Ring) (x : aarray G R) (axis : nat) (cs : list (coord G)),
+  wf_array G R x = true -> coords_ok G (indices G R x) cs = true ->
+  sem G R (a_expand_dims G R x axis) (insert_nth cs axis (ident G, 0%nat)) = sem G R x cs /\
+  (exists d : bool, indices G R (a_expand_dims G R x axis) = insert_nth (indices G R x) axis (unit_index G d)) /\
+  charge G R (a_expand_dims G R x axis) = charge G R x /\
+  coords_ok G (indices G R (a_expand_dims G R x axis)) (insert_nth cs axis (ident G, 0%nat)) = true.
+Proof. exact expand_dims_sem. Qed.
+
+Theorem C08_squeeze_sem :
+  forall (G : Symmetry), GroupLaws G ->
+  forall (R : Ring) (x : aarray G R) (axes : option (list nat)) (y : aarray G R) (cs : list (coord G)),
+  wf_array G R x = true -> coords_ok G (indices G R x) cs = true ->
+  a_squeeze G R x axes = Some y ->
+  sem G R y (mask_keep (removes G R x axes) cs) = sem G R x cs /\
+  indices G R y = mask_keep (removes G R x axes) (indices G R x) /\
+  charge G R y = charge G R x.
+Proof. exact squeeze_sem. Qed.
+
+Theorem C08_removes_spec :
+  forall (G : Symmetry) (R : Ring) (x : aarray G R) (axes : option (list nat)) (i : nat),
+  (i < ndim G R x)%nat ->
+  (nth i (removes G R x axes) false = true <-> selected G axes i (nth i (indices G R x) (dflt_index G))).
+Proof. exact removes_spec. Qed.
+
+Theorem C08_squeeze_none :
+  forall (G : Symmetry), GroupLaws G -> forall (R : Ring) (x : aarray G R) (axes : option (list nat)),
+  a_squeeze G R x axes = None <->
+  (exists i : nat, (i < ndim G R x)%nat /\
+     selected G axes i (nth i (indices G R x) (dflt_index G)) /\
+     ~ squeezable G (nth i (indices G R x) (dflt_index G))).
+Proof. exact squeeze_none. Qed.
+
+Theorem C08_v_add_sem :
+  forall (G : Symmetry), GroupLaws G -> forall (R : Ring),
+  (forall a, radd R (r0 R) a = a) -> (forall a, radd R a (r0 R) = a) ->
+  forall (x y : bvec G R) (co : coord G), vinb G R x co ->
+  vsem G R (v_add G R x y) co = radd R (vsem G R x co) (vsem G R y co).
+Proof. exact v_add_sem. Qed.
+
+Theorem C08_v_sub_sem :
+  forall (G : Symmetry), GroupLaws G -> forall (R : Ring),
+  (forall a, radd R (r0 R) a = a) -> rneg R (r0 R) = r0 R ->
+  forall (x y z : bvec G R) (co : coord G), vinb G R x co ->
+  v_sub G R x y = Some z ->
+  vsem G R z co = radd R (vsem G R x co) (rneg R (vsem G R y co)).
+Proof. exact v_sub_sem. Qed.
+
+Theorem C08_v_sub_none :
+  forall (G : Symmetry), GroupLaws G -> forall (R : Ring) (x y : bvec G R),
+  v_sub G R x y = None <-> ~ (forall c, In c (keys x) <-> In c (keys y)).
+Proof. exact v_sub_none. Qed.
+
+Theorem C08_v_mul_sem :
+  forall (G : Symmetry), GroupLaws G -> forall (R : Ring),
+  (forall a, rmul R (r0 R) a = r0 R) -> (forall a, rmul R a (r0 R) = r0 R) ->
+  forall (x y : bvec G R) (co : coord G), vinb G R x co ->
+  vsem G R (v_mul G R x y) co = rmul R (vsem G R x co) (vsem G R y co).
+Proof. exact v_mul_sem. Qed.
+
+Theorem C08_v_scale_sem :
+  forall (G : Symmetry) (R : Ring), (forall a, rmul R (r0 R) a = r0 R) ->
+  forall (x : bvec G R) (s : RT R) (co : coord G),
+  vsem G R (v_scale G R x s) co = rmul R (vsem G R x co) s.
+Proof. exact v_scale_sem. Qed.
+
+Theorem C08_v_neg_sem :
+  forall (G : Symmetry) (R : Ring), rneg R (r0 R) = r0 R ->
+  forall (x : bvec G R) (co : coord G), vsem G R (v_neg G R x) co = rneg R (vsem G R x co).
+Proof. exact v_neg_sem. Qed.
+
+(* x.sum() is the sum of ALL dense entries (all_coords enumerates every coordinate
+   of the index tables); tables_nodup = no charge listed twice in a table. *)
+Theorem C08_sum_sem :
+  forall (G : Symmetry), GroupLaws G -> forall (R : Ring),
+  (forall a, radd R (r0 R) a = a) -> (forall a b, radd R a b = radd R b a) ->
+  (forall a b c, radd R a (radd R b c) = radd R (radd R a b) c) ->
+  forall (x : aarray G R), wf_array G R x = true -> tables_nodup G R x = true ->
+  a_sum G R x = rsum R (map (sem G R x) (all_coords G (indices G R x))).
+Proof. exact sum_sem. Qed.
+
+Theorem C08_norm2_sem :
+  forall (G : Symmetry), GroupLaws G -> forall (R : Ring),
+  (forall a, radd R (r0 R) a = a) -> (forall a b, radd R a b = radd R b a) ->
+  (forall a b c, radd R a (radd R b c) = radd R (radd R a b) c) ->
+  (forall a, rmul R (r0 R) a = r0 R) ->
+  forall (x : aarray G R), wf_array G R x = true -> tables_nodup G R x = true ->
+  a_norm2 G R x = rsum R (map (fun cs => rmul R (sem G R x cs) (rconj R (sem G R x cs)))
+                              (all_coords G (indices G R x))).
+Proof. exact norm2_sem. Qed.
+
+(* the extra premise of the two reductions follows from wf_array whenever the charge
+   order is a strict order (true for Z.ltb and pair_ltb, i.e. all built-in symmetries) *)
+Theorem C08_wf_tables_nodup :
+  forall (G : Symmetry), GroupLaws G -> forall (R : Ring),
+  (forall a, cltb G a a = false) ->
+  (forall a b c, cltb G a b = true -> cltb G b c = true -> cltb G a c = true) ->
+  forall (x : aarray G R), wf_array G R x = true -> tables_nodup G R x = true.
+Proof. exact wf_tables_nodup. Qed.
+
+Theorem C08_ZRing_laws : RingLaws ZRing.
+Proof. exact ZRing_laws. Qed.
+
+Theorem C08_GRing_laws : RingLaws GRing.
+Proof. exact GRing_laws. Qed.
+
+Print Assumptions C08_transpose_sem.
+Print Assumptions C08_conj_sem.
+Print Assumptions C08_iconj_spec.
+Print Assumptions C08_dagger_sem.
+Print Assumptions C08_scale_sem.
+Print Assumptions C08_neg_sem.
+Print Assumptions C08_add_sem.
+Print Assumptions C08_sub_sem.
+Print Assumptions C08_sub_none.
+Print Assumptions C08_mul_sem.
+Print Assumptions C08_multiply_diagonal_sem.
+Print Assumptions C08_expand_dims_sem.
+Print Assumptions C08_squeeze_sem.
+Print Assumptions C08_removes_spec.
+Print Assumptions C08_squeeze_none.
+Print Assumptions C08_v_add_sem.
+Print Assumptions C08_v_sub_sem.
+Print Assumptions C08_v_sub_none.
+Print Assumptions C08_v_mul_sem.
+Print Assumptions C08_v_scale_sem.
+Print Assumptions C08_v_neg_sem.
+Print Assumptions C08_sum_sem.
+Print Assumptions C08_norm2_sem.
+Print Assumptions C08_wf_tables_nodup.
+Print Assumptions C08_ZRing_laws.
+Print Assumptions C08_GRing_laws.
